@@ -85,6 +85,12 @@ def info(name):
     return _cache[name]
 
 
+# a unit's stand-ins may also name functions of ANOTHER workspace crate its crate is built on (actix-server and actix-tls
+# call actix-rt: `System::try_current`, `Arbiter::try_current`, `ArbiterHandle::stop`, `Arbiter::with_tokio_rt`);
+# crates not listed here are matched within themselves only (a tokio `Sender::send` stand-in is not local-channel's)
+CRATE_USES = {"actix-server": {"actix-rt"}, "actix-tls": {"actix-rt"}}
+
+
 def depends(name):
     crate, _, st = info(name)
     out = {}
@@ -92,7 +98,7 @@ def depends(name):
         if y == name:
             continue
         c2, ext2, _ = info(y)
-        if c2 != crate:
+        if c2 != crate and c2 not in CRATE_USES.get(crate, ()):
             continue
         common = st & set(v for v in ext2.values() if v[0] is not None)
         if common:
